@@ -88,9 +88,7 @@ static void detect_arm_features(void) {
     /* NEON is always available on AArch64 */
     g_cpu_info.has_neon = 1;
 
-    /* SVE detection */
-    g_cpu_info.has_sve = 0;
-    g_cpu_info.sve_vector_length = 0;
+    /* SVE detection (has_sve / sve_vector_length start out zero) */
 
 #if defined(__linux__)
     /* Linux: use getauxval to detect SVE */
@@ -111,17 +109,16 @@ static void detect_arm_features(void) {
 #endif
     }
 #elif defined(__APPLE__)
-    /* macOS/Apple Silicon: SVE is not available on Apple M-series chips */
-    g_cpu_info.has_sve = 0;
-    g_cpu_info.sve_vector_length = 0;
+    /* macOS/Apple Silicon: SVE is not available on Apple M-series chips
+     * (has_sve / sve_vector_length stay zero) */
 #endif
 }
 
 #elif defined(__arm__) || defined(_M_ARM)
 
 static void detect_arm_features(void) {
-    /* ARMv7 NEON detection would require runtime checks */
-    g_cpu_info.has_neon = 0;  /* Conservative default */
+    /* ARMv7 NEON detection would require runtime checks;
+     * has_neon stays zero (conservative default) */
 }
 
 #endif
@@ -132,8 +129,12 @@ carquet_status_t carquet_init(void) {
         return CARQUET_OK;
     }
 
-    /* Initialize CPU feature detection */
-    memset(&g_cpu_info, 0, sizeof(g_cpu_info));
+    /* Initialize CPU feature detection.
+     * g_cpu_info has static storage and starts out all-zero. It is deliberately not
+     * cleared here: several threads may run this function at the same time (concurrent
+     * first use of the library), and a thread that has already been handed
+     * &g_cpu_info by carquet_get_cpu_info() must never see a field go back to zero.
+     * Every store made during detection writes the field's final value. */
 
 #if defined(__x86_64__) || defined(__i386__) || defined(_M_X64) || defined(_M_IX86)
     detect_x86_features();
